@@ -370,9 +370,11 @@ def decPrimary (strict : Bool) (bs : Bytes) : Except Err (Primary × Bytes) :=
           if cc = cv then .ok (x.2, r') else .error (.other 45)
     else .ok (x.2, r)
 
-/-- Insertion into a Go map: an existing key keeps its place and gets the new value. -/
-def mapInsert (m : EidMap) (k : Eid) (v : Nat) : EidMap :=
-  if m.any (fun p => p.1 == k) then m.map (fun p => if p.1 == k then (k, v) else p) else m ++ [(k, v)]
+/-- Insertion into a Go map (entry list with pairwise different keys): an existing key keeps its
+place and gets the new value, a new key is appended. -/
+def mapInsert : EidMap → Eid → Nat → EidMap
+  | [], k, v => [(k, v)]
+  | (k', v') :: rest, k, v => if k' = k then (k, v) :: rest else (k', v') :: mapInsert rest k v
 
 /-- `n` (key, value) pairs; `n` comes from the wire, the loop ends at the first read error. -/
 def decPairs (decV : Bytes → Except Err (Nat × Bytes)) : Nat → EidMap → Bytes → Except Err (EidMap × Bytes)
